@@ -14,6 +14,7 @@ def showVal : Val → String
     | .vec => "[" ++ showVals xs ++ "]"
     | .kvec => "<" ++ showVals xs ++ ">"
     | .atom => "(" ++ showVals xs ++ ")"
+    | .enumv => "^" ++ showVals xs ++ "$"
     | .opt => match xs with
       | [] => "~"
       | x :: _ => "?" ++ showVal x
@@ -44,6 +45,7 @@ def parseVal : Nat → List Char → Option (Val × List Char)
     | '[' :: r => (parseItems f r ']').map fun (xs, r') => (.node .vec xs, r')
     | '<' :: r => (parseItems f r '>').map fun (xs, r') => (.node .kvec xs, r')
     | '(' :: r => (parseItems f r ')').map fun (xs, r') => (.node .atom xs, r')
+    | '^' :: r => (parseItems f r '$').map fun (xs, r') => (.node .enumv xs, r')
     | '~' :: r => some (.node .opt [], r)
     | '?' :: r => (parseVal f r).map fun (v, r') => (.node .opt [v], r')
     | c :: r => if isDigit c then let (n, r') := takeNat (c :: r) 0; some (.leaf n, r') else none
@@ -69,6 +71,13 @@ def parseValStr (s : String) : Option Val :=
 
 def parseAcc (s : String) : Option Acc :=
   match s.toList with
+  | 'v' :: r =>
+    -- `v<variant>_<field>`
+    match (String.ofList r).splitOn "_" with
+    | [a, b] => match a.toNat?, b.toNat? with
+      | some v, some i => some (.var v i)
+      | _, _ => none
+    | _ => none
   | c :: r =>
     if r.isEmpty || !r.all isDigit then none
     else
@@ -103,7 +112,16 @@ def optPrefix (v : Val) (c : Chain) : Option Nat :=
   (List.range c.length).find? fun n =>
     match logicalGet v (c.take n) with
     | .val (.node .opt _) => true
+    | .val (.node .enumv _) => true
     | _ => false
+
+/-- a reader (or write) that holds the `Subfield` of an enum variant's field can only be built while the value
+is of that variant (`variant_field()` returns `None` otherwise) -/
+def varsMatch (v : Val) (c : Chain) : Bool :=
+  (List.range c.length).all fun n =>
+    match c[n]? with
+    | some (.var _ _) => (match logicalGet v (c.take (n + 1)) with | .val _ => true | _ => false)
+    | _ => true
 
 /-- the field a reader reads for the purpose of "is this write related to it": a reader that goes through
 `OptionStoreExt::map` / `invert` reads the `Option` field itself (is it `Some`?) -/
@@ -137,7 +155,8 @@ def endsDefaultTrack (c : Chain) : Bool :=
   match c.getLast? with | some (.key _) => true | some (.kfld _) => true | some (.idx _) => true | _ => false
 
 /-- verdict of a write-like op: `ws` = the logical chains written, `wc` = the accessor chain used -/
-def judgeWrite (before st : St) (ever : List Bool) (ws : List Chain) (wc : Chain) (isPatch : Bool) : String :=
+def judgeWrite (before st : St) (ever : List Bool) (ws : List Chain) (wc : Chain) (isPatch : Bool)
+    (era : Option Nat) : String :=
   let all := List.range st.effs.length
   let exp := all.filter fun e => ws.any fun w => related w (relChainOf st e)
   let rb := before.ready
@@ -147,18 +166,26 @@ def judgeWrite (before st : St) (ever : List Bool) (ws : List Chain) (wc : Chain
   let excused (e : Nat) : Bool :=
     !(ever.getD e true) && (match logicalGet st.val (chainOf st e) with | .none => true | _ => false)
   let missing := exp.filter fun e => (if isImm st e then !ran.contains e else !ra.contains e) && !excused e
+  -- a held `Subfield` of a field of an enum variant that the value is not in (before and after the write)
+  -- addresses no field either
+  let deadVariant (e : Nat) : Bool :=
+    (chainOf st e).any (fun a => match a with | .var _ _ => true | _ => false) &&
+    (match logicalGet before.val (chainOf st e), logicalGet st.val (chainOf st e) with
+     | .absent, .absent => true | _, _ => false)
   let spurious := ((ra.filter fun e => !rb.contains e && !exp.contains e) ++ (ran.filter fun e => !exp.contains e)).filter
-    (fun e => !excused e)
+    (fun e => !excused e && !deadVariant e)
   let keyed := hasKey wc || ws.any hasKey
   if valuesBad st ran then "fail stale-keys"
   else if !spurious.isEmpty then
-    if hasIdx wc then "fail index-write-wakes-cousins"
+    if wc.any (fun a => match a with | .var _ _ => true | _ => false) then "fail enum-variant-fields-share-segment"
+    else if hasIdx wc then "fail index-write-wakes-cousins"
     else if isPatch && keyed then "fail patch-keyed-by-index"
     else if spurious.any (fun e => match logicalGet st.val (chainOf st e) with | .none => true | _ => false)
       then "fail removed-key-reader-not-dropped"
     else "fail segment-collision"
   else if !missing.isEmpty then
     if isPatch && keyed then "fail patch-keyed-by-index"
+    else if wc.isEmpty && era.isSome && !isPatch then "fail root-handle-write-misses-descendants"
     else if missing.all (fun e => match st.effs[e]? with | some x => x.kind == .iterU | none => false)
       then "fail iter-unkeyed-misses-ancestor-write"
     else if missing.all (fun e => endsDefaultTrack (chainOf st e)) then "fail accessor-misses-ancestor-write"
@@ -191,7 +218,8 @@ def hasImm (st : St) : Bool := st.effs.any (·.imm)
 def showWrote : Wrote → String
   | .done => "done" | .absent => "absent" | .none => "none" | .panic => "panic"
 
-def doWrite (d : DS) (st : St) (op : Op) (c : Chain) (isPatch : Bool) (newv : Option Val) : DS × String :=
+def doWrite (d : DS) (st : St) (op : Op) (c : Chain) (isPatch : Bool) (newv : Option Val)
+    (era : Option Nat := none) : DS × String :=
   let old := logicalGet st.val c
   let r := stepOp st op
   if r.1.panicked then ({ d with st := some r.1, dead := true }, "panic ## fail stale-keys")
@@ -206,12 +234,42 @@ def doWrite (d : DS) (st : St) (op : Op) (c : Chain) (isPatch : Bool) (newv : Op
           | _, _ => [c]
         else [c]
       | _ => []
-    ({ d with st := some r.1, ever := ever }, render r.1 s!"w={showWrote r.2} " (judgeWrite st r.1 ever ws c isPatch))
+    ({ d with st := some r.1, ever := ever }, render r.1 s!"w={showWrote r.2} " (judgeWrite st r.1 ever ws c isPatch era))
 
 def vecLen (st : St) (c : Chain) : Option Nat :=
   match logicalGet st.val c with
   | .val (.node _ xs) => some xs.length
   | _ => none
+
+def hasKeyAcc (c : Chain) : Bool := c.any fun a => match a with | .key _ => true | _ => false
+
+/-- `field<k>` / `arc<k>`: which accessor of the chain may be converted to a handle -/
+def eraOf (c : Chain) (how : String) : Option Nat :=
+  let ds := if how.startsWith "field" then some (how.drop 5).toString
+            else if how.startsWith "arc" then some (how.drop 3).toString else none
+  match ds with
+  | some ds =>
+    match ds.toNat? with
+    | some k =>
+      let pre := c.take k
+      if k ≤ c.length && !endsKeyed pre && (!hasKeyAcc pre || k == c.length) then some k else none
+    | none => none
+  | none => none
+
+/-- `set|upd|wr|patch <chain> <value> [field<k>|arc<k>]` -/
+def writeOp (d : DS) (st : St) (kind : String) (c : Chain) (a : String) (eraS : Option String) : DS × String :=
+  let era : Option (Option Nat) := match eraS with
+    | none => some none
+    | some h => (eraOf c h).map some
+  match parseValStr a, era with
+  | some v, some era =>
+    if !varsMatch st.val c then (d, "bad-op")
+    else if kind == "patch" then
+      match logicalGet st.val c with
+      | .val (.node .enumv _) => (d, "bad-op")
+      | _ => if hasImm st then (d, "unsupported") else doWrite d st (.patch c v era) c true (some v) era
+    else doWrite d st (.set c v era) c false none era
+  | _, _ => (d, "bad-op")
 
 def step (d : DS) (line : String) : DS × String :=
   match words line with
@@ -242,14 +300,7 @@ def step (d : DS) (line : String) : DS × String :=
       match parseChain c with
       | none => (d, "bad-op")
       | some c =>
-        if kind == "set" || kind == "upd" || kind == "wr" then
-          match parseValStr a with
-          | some v => doWrite d st (.set c v) c false none
-          | none => (d, "bad-op")
-        else if kind == "patch" then
-          match parseValStr a with
-          | some v => if hasImm st then (d, "unsupported") else doWrite d st (.patch c v) c true (some v)
-          | none => (d, "bad-op")
+        if kind == "set" || kind == "upd" || kind == "wr" || kind == "patch" then writeOp d st kind c a none
         else if kind == "kpush" then
           match parseValStr a, vecLen st c with
           | some v, some _ => if endsKeyed c then doWrite d st (.kpush c v) c false none else (d, "bad-op")
@@ -259,16 +310,20 @@ def step (d : DS) (line : String) : DS × String :=
           | some i, some n => if i < n && endsKeyed c then doWrite d st (.kremove c i) c false none else (d, "bad-op")
           | _, _ => (d, "bad-op")
         else (d, "bad-op")
-    | ["kswap", c, a, b], some st =>
-      match parseChain c, a.toNat?, b.toNat? with
-      | some c, some i, some j =>
-        match vecLen st c with
-        | some n => if i < n && j < n && endsKeyed c then doWrite d st (.kswap c i j) c false none else (d, "bad-op")
+    | [kind, c, a, era], some st =>
+      if kind == "kswap" then
+        match parseChain c, a.toNat?, era.toNat? with
+        | some c, some i, some j =>
+          match vecLen st c with
+          | some n => if i < n && j < n && endsKeyed c then doWrite d st (.kswap c i j) c false none else (d, "bad-op")
+          | none => (d, "bad-op")
+        | _, _, _ => (d, "bad-op")
+      else if kind == "set" || kind == "upd" || kind == "wr" || kind == "patch" then
+        match parseChain c with
+        | some c => writeOp d st kind c a (some era)
         | none => (d, "bad-op")
-      | _, _, _ => (d, "bad-op")
+      else (d, "bad-op")
     | _, _ => (d, "bad-op")
-
-def hasKeyAcc (c : Chain) : Bool := c.any fun a => match a with | .key _ => true | _ => false
 
 /-- `eff|imm <chain> [how]`: how = get|read|with|track (the same reader for the model), map|invert
 (`OptionStoreExt`), iter (keyed: `for` over the field; else `iter_unkeyed`), field<k>|arc<k> (the accessor
@@ -278,25 +333,26 @@ def readerOp (d : DS) (st : St) (imm : Bool) (c : Chain) (how : String) : DS × 
     let r := stepOp st (.reader c kind imm pre)
     if r.1.panicked then ({ d with st := some r.1, dead := true }, "panic ## fail stale-keys")
     else ({ d with st := some r.1, ever := updEver d.ever r.1 }, render r.1 "" (judgeRuns r.1))
-  if how == "get" || how == "read" || how == "with" || how == "track" then go .plain none
+  let optAt := optPrefix st.val c
+  let isEnumAt := match optAt with
+    | some n => (match logicalGet st.val (c.take n) with | .val (.node .enumv _) => true | _ => false)
+    | none => false
+  if how == "variant" then
+    -- the enum's `variant_field()` accessor is called inside the reader
+    if isEnumAt then go .omap none else (d, "bad-op")
+  else if !varsMatch st.val c then (d, "bad-op")
+  else if how == "get" || how == "read" || how == "with" || how == "track" then go .plain none
   else if how == "map" || how == "invert" then
-    if (optPrefix st.val c).isSome then go .omap none else (d, "bad-op")
+    if optAt.isSome && !isEnumAt then go .omap none else (d, "bad-op")
   else if how == "iter" then
     if endsKeyed c then go .iterK none
     else match logicalGet st.val c with
       | .val (.node .vec _) => go .iterU none
       | _ => (d, "bad-op")
   else
-    let erased (ds : String) : DS × String :=
-      match ds.toNat? with
-      | some k =>
-        let pre := c.take k
-        if k ≤ c.length && !endsKeyed pre && (!hasKeyAcc pre || k == c.length) then go .plain (some k)
-        else (d, "bad-op")
-      | none => (d, "bad-op")
-    if how.startsWith "field" then erased (how.drop 5).toString
-    else if how.startsWith "arc" then erased (how.drop 3).toString
-    else (d, "bad-op")
+    match eraOf c how with
+    | some k => go .plain (some k)
+    | none => (d, "bad-op")
 
 /-- `poll <i>` is recognised before the generic two-word ops -/
 def step' (d : DS) (line : String) : DS × String :=
